@@ -50,6 +50,11 @@ def lower(x):
         return VObj(z3.IntVal(4_000_000))
     if isinstance(x, tuple) and not x:
         return VObj(z3.IntVal(4_000_001))
+    if x.__class__.__name__ == "_StarArgs":
+        src = getattr(x.seq, "src_val", None)
+        if src is None:
+            raise Unsupported("*args of a sequence with no source value")
+        return uf("star_args", 1)(src)
     return to_val(x)
 
 
@@ -132,14 +137,16 @@ def make_interp(raising=True):
 
     def iter_hook(I, path, v):
         if isinstance(v, SV):
-            return SSeq(seq_len(v.t), lambda i, t=v.t: SV(seq_at(t, to_int(i))), "gen")
+            s_ = SSeq(seq_len(v.t), lambda i, t=v.t: SV(seq_at(t, to_int(i))), "gen")
+            s_.src_val = v.t
+            return s_
         return _MISSING
     I.hooks["iter"] = iter_hook
     I.hooks["format_value"] = lambda I, path, v, spec, conv_: [("opaque", lower(v) if not isinstance(v, str) else VStr(z3.IntVal(str_id(v))))]
 
     def call_opaque(I, path, f, args, kwargs):
-        if getattr(f, "is_routine", False):
-            return _MISSING
+        if getattr(f, "is_routine", False) or I.merging:
+            return _MISSING          # member routines: the engine's run / run_raises model
         if getattr(f, "is_ctor", False):
             return _MISSING
         return call_uf(I, path, "call", [f] + list(args), kwargs, may_raise=I.uf_raising)
